@@ -2,6 +2,7 @@ package main
 
 import (
 	"context"
+	"errors"
 	"fmt"
 	"io"
 	"math/rand"
@@ -215,7 +216,10 @@ func c13One(r *Run, seq []respEnv, withStats bool, rng *rand.Rand) bool {
 		r.Violate("seq.stall", "ops", "client read loop did not come back for more input", input, nil, goroutineDump())
 		return false
 	}
-	sc.FailRead(io.ErrUnexpectedEOF)
+	// the connection ends: a clean close (io.EOF itself, as net.Pipe / TCP framing report it), a wrapped
+	// EOF, an abrupt one, or some other error — none of them is an OK trailer
+	closeErrs := []error{io.EOF, io.ErrUnexpectedEOF, fmt.Errorf("transport: %w", io.EOF), errInjectedRead}
+	sc.FailRead(closeErrs[rng.Intn(len(closeErrs))])
 	var a ares
 	var b bres
 	ok := within(hangTimeout, func() { a = <-aDone; b = <-bDone })
@@ -229,7 +233,7 @@ func c13One(r *Run, seq []respEnv, withStats bool, rng *rand.Rand) bool {
 		aOut = "ok"
 	case strings.Contains(a.err.Error(), "malformed response: no body or status"):
 		aOut = "malformed"
-	case strings.Contains(a.err.Error(), "respChan closed") || a.err == io.ErrUnexpectedEOF || strings.Contains(a.err.Error(), "unexpected EOF"):
+	case strings.Contains(a.err.Error(), "respChan closed") || errors.Is(a.err, io.ErrUnexpectedEOF) || errors.Is(a.err, io.EOF) || errors.Is(a.err, errInjectedRead):
 		aOut = "closed"
 	default:
 		st, _ := status.FromError(a.err)
